@@ -16,7 +16,8 @@ def step (lim : Nat) (tbl : List Nat) (id : Nat) : Option (Nat × List Nat) :=
   let i := tbl.idxOf id
   let n := tbl.length
   if i < n then some (i, tbl)                                          -- the linear search, id_table.c:71-76
-  else if n = lim then none                                            -- :78
+  else if n = lim then none                                            -- :78 (`used >= 0xFFFF`; `=` and `≥` coincide:
+                                                                       --      `step_spec` keeps `length ≤ lim` from the empty table on)
   else some (n, tbl ++ [id])                                           -- :81-82
 
 /-- a sequence of calls (two per inode in `serialize_tree_node`), fail-stop; returns table and indices -/
